@@ -11,6 +11,7 @@ from geneticengine.representations.api import (
     RepresentationWithMutation,
     Representation,
 )
+from geneticengine.representations.grammatical_evolution.ge import decider_reading_from
 from geneticengine.representations.tree.initializations import SynthesisDecider
 from geneticengine.representations.tree.treebased import random_node
 from geneticengine.solutions.tree import TreeNode
@@ -97,7 +98,7 @@ class StructuredGrammaticalEvolutionRepresentation(
 
     def genotype_to_phenotype(self, genotype: Genotype) -> TreeNode:
         rand: RandomSource = StructuredListWrapper(genotype.dna)
-        return random_node(rand, self.grammar, self.grammar.starting_symbol, self.decider)
+        return random_node(rand, self.grammar, self.grammar.starting_symbol, decider_reading_from(self.decider, rand))
 
     def mutate(self, random: RandomSource, genotype: Genotype, **kwargs) -> Genotype:
         rkey = random.choice(list(genotype.dna.keys()))
